@@ -392,7 +392,22 @@ def rule_points_compared_whole_(ctx: Ctx, rep: Report) -> None:
     rule_points_compared_whole(ctx, rep, "C16.points_compared_whole", ('btclib.ecc.musig2', 'btclib.psbt.musig2', 'btclib.ecc.dleq', 'btclib.ecc.borromean'), 1)
 
 
+def rule_config_not_replaced_(ctx: Ctx, rep: Report) -> None:
+    """C16.config_not_replaced: the curve / hash function / network a function takes is handed on as its own, never replaced by a module constant (see sigcommon.rule_config_not_replaced)."""
+    from rules.sigcommon import rule_config_not_replaced
+    rule_config_not_replaced(ctx, rep, "C16.config_not_replaced", ('btclib.ecc.musig2', 'btclib.ecc.dleq', 'btclib.ecc.dh', 'btclib.ecc.ecies', 'btclib.ecc.ellswift', 'btclib.ecc.borromean', 'btclib.ecc.pedersen', 'btclib.silent_payments', 'btclib.psbt.musig2', 'btclib.psbt.silent_payments'), 1)
+
+
+def rule_hash_params_(ctx: Ctx, rep: Report) -> None:
+    """C16.hash_params: a `..._hash` parameter is handed a digest, never the caller's text as it came (see sigcommon.rule_hash_params)."""
+    from rules.sigcommon import rule_hash_params
+    rule_hash_params(ctx, rep, "C16.hash_params", ('btclib.ecc.musig2', 'btclib.ecc.dleq', 'btclib.ecc.dh', 'btclib.ecc.ecies', 'btclib.ecc.ellswift', 'btclib.ecc.borromean', 'btclib.ecc.pedersen', 'btclib.silent_payments', 'btclib.psbt.musig2', 'btclib.psbt.silent_payments'), 1)
+
+
 RULES = [
+    ("C16.config_not_replaced", rule_config_not_replaced_),
+    ("C16.hash_params", rule_hash_params_),
+
     ("C16.points_compared_whole", rule_points_compared_whole_),
     ("C16.keys_in_address_order", rule_keys_in_address_order),
     ("C16.kmax_everywhere", rule_kmax_everywhere),
